@@ -145,6 +145,9 @@ func checkC15(p *Prog, r *Report) {
 					if !ok {
 						continue
 					}
+					if bo.Op != token.EQL && bo.Op != token.NEQ {
+						continue // an ordering test (item.Level <= level) lets handlers of an earlier level run again
+					}
 					eq := (bo.Op == token.EQL) == g.Val
 					if eq && (strings.HasSuffix(Path(bo.X), ".Level") || strings.HasSuffix(Path(bo.Y), ".Level")) {
 						okItem = true
